@@ -34,10 +34,12 @@ Definition resolve_renamed (cn : str) (rn : renames) (imports : list imported) (
   | [] => lookup_rename rn id cn
   end.
 
-(* reconcile.rs:126 check_type: only Simple ids are rewritten; the id of a Generic is not *)
+(* reconcile.rs:126 check_type: the id of a Simple and (fix: commit in /repo) the id of a Generic are resolved
+   through resolve_renamed; a Generic's own id first, then its parameters *)
 Fixpoint check_type (cn : str) (rn : renames) (imports : list imported) (t : rtype) : rtype :=
   match t with
-  | RGeneric id ps => RGeneric id (map (check_type cn rn imports) ps)
+  | RGeneric id ps => RGeneric (match resolve_renamed cn rn imports id with Some r => r | None => id end)
+                               (map (check_type cn rn imports) ps)
   | RVec x => RVec (check_type cn rn imports x)
   | RArray x n => RArray (check_type cn rn imports x) n
   | RSlice x => RSlice (check_type cn rn imports x)
@@ -56,6 +58,8 @@ Definition check_variant cn rn imports (v : rvariant) : rvariant :=
   | VTuple t sh => VTuple (check_type cn rn imports t) sh
   | VAnon fs sh => VAnon (map (check_field cn rn imports) fs) sh
   end.
+Definition check_const cn rn imports (c : rconst) : rconst :=
+  {| cid := cid c; ctype := check_type cn rn imports (ctype c); cvalue := cvalue c |}.
 Definition check_eshared cn rn imports (sh : eshared) : eshared :=
   {| eid := eid sh; egenerics := egenerics sh; ecomments := ecomments sh;
      evariants := map (check_variant cn rn imports) (evariants sh); edecs := edecs sh;
@@ -85,7 +89,8 @@ Definition reconcile_crate (rn : renames) (cn : str) (pd : parsed) : parsed :=
      p_aliases := stable_sort (fun a => original (aid a))
        (map (fun a => {| aid := aid a; agenerics := agenerics a; atype := check_type cn rn im (atype a);
                          acomments := acomments a; adecs := adecs a; aredacted := aredacted a |}) (p_aliases pd));
-     p_consts := stable_sort (fun c => original (cid c)) (p_consts pd);   (* sorted (fix: commit in /repo), not reconciled *)
+     (* reconciled after the aliases (fix: commit in /repo), then sorted with the others (fix: commit in /repo) *)
+     p_consts := stable_sort (fun c => original (cid c)) (map (check_const cn rn im) (p_consts pd));
      p_type_names := p_type_names pd; p_errors := p_errors pd; p_imports := p_imports pd |}.
 
 (* reconcile.rs:22 reconcile_aliases *)
